@@ -35,7 +35,7 @@ ASSUMPTIONS = [
 
 TIERS = {
     "quick":    {"runs": 240000,  "chunk": 7500,  "hash_seeds": [0], "max_ops": 12, "timeout": 900},
-    "thorough": {"runs": 3200000, "chunk": 50000, "hash_seeds": [0], "max_ops": 16, "timeout": 3000},
+    "thorough": {"runs": 3200000, "chunk": 50000, "max_wall": 2400, "hash_seeds": [0], "max_ops": 16, "timeout": 3000},
     "selftest": {"runs": 1600,    "chunk": 100,   "hash_seeds": [0], "max_ops": 12, "timeout": 300},
 }
 REQUIRED_PROBES = {"quick": ["forbidden_both", "forbidden_mismatch", "forbidden_subday", "sibling_removed",
